@@ -1809,7 +1809,7 @@ def run_case(case, H):
     except Exception as e:
         raise CaseInvalid('decode: %s' % e)
     try:
-        with time_limit(20):
+        with time_limit(60):
             th = holpy_call(rule, args, P, ctx, sizes, coeffs, inst)
     except Timeout:
         H.inconc('eval-timeout')
@@ -1855,7 +1855,7 @@ def run_case(case, H):
     # (b) consequence
     prems = oracle_premises(rule, P, ctx)
     try:
-        with time_limit(30):
+        with time_limit(120):
             v, info = L.entails(prems, (Hy, C))
             if v == 'invalid':
                 # is it only a matter of dropped hypotheses?
